@@ -36,3 +36,11 @@ pub broadcast axiom fn axiom_array_u8_eq<const N: usize>(a: [u8; N], b: [u8; N])
 
 pub assume_specification<'a, T: Copy>[Option::<&'a T>::copied](o: Option<&'a T>) -> (r: Option<T>)
     ensures r == (match o { Some(x) => Some(*x), None => None::<T> });
+
+// opaque string helpers (message texts are in no property)
+#[verifier::external_body]
+pub fn vx_string_from(s: &str) -> (r: String) { s.to_string() }
+#[verifier::external_body]
+pub fn vx_lossy_string(b: &[u8]) -> (r: String) { String::new() }
+#[verifier::external_body]
+pub fn vx_str_contains(s: &String, pat: &str) -> (r: bool) { s.contains(pat) }
